@@ -36,6 +36,8 @@ def _has_strings(terms):
 
 
 def _run_cvc5(smt2, timeout_s):
+    import re
+    smt2 = re.sub(r"\(\(_ ([A-Za-z_][A-Za-z_0-9]*) 0\)", r"(\1", smt2)      # z3's rendering of define-fun-rec applications
     with tempfile.NamedTemporaryFile("w", suffix=".smt2", delete=False, dir=_CFG.get("tmp")) as f:
         f.write("(set-logic ALL)\n")
         f.write(smt2)
@@ -57,23 +59,51 @@ def _run_cvc5(smt2, timeout_s):
             pass
 
 
+def _z3_check(forms, timeout, seed):
+    s = z3.Solver()
+    s.set("timeout", int(timeout * 1000))
+    s.set("random_seed", seed % 1000)
+    for f in forms:
+        s.add(f)
+    return s, s.check()
+
+
 def _solve_one(idx):
+    """Strategies, in order, until one decides: for string VCs cvc5 goes first (it is by far the more
+    reliable string solver here), otherwise z3; then the other solver; then both again on the
+    explicitly ground-instantiated, quantifier-free weakening (sound for unsat only)."""
     ob = _OBLIGS[idx]
     t0 = time.time()
     timeout = _CFG.get("timeout", 20)
+    seed = _CFG.get("seed", 0)
     forms = ob.formula()
     res = {"idx": idx, "name": ob.name, "status": "unknown", "solver": None, "time": 0.0, "model": None, "detail": ""}
     strings = _has_strings(forms)
-    s = z3.Solver()
-    s.set("timeout", int(timeout * 1000))
-    s.set("random_seed", _CFG.get("seed", 0) % 1000)
-    for f in forms:
-        s.add(f)
-    r = s.check()
-    if r == z3.unsat:
-        res.update(status="unsat", solver="z3-5.1")
-    elif r == z3.sat:
-        res.update(status="sat", solver="z3-5.1")
+    res["strings"] = strings
+    use_cvc5 = _CFG.get("cvc5", True)
+    cross = _CFG.get("cross")
+    answers = {}
+
+    def run_z3(fs, tag=""):
+        s, r = _z3_check(fs, timeout, seed)
+        if r == z3.unsat:
+            answers["z3" + tag] = "unsat"
+            return "unsat", s
+        if r == z3.sat:
+            answers["z3" + tag] = "sat"
+            return "sat", s
+        res["detail"] += f" z3{tag}:{s.reason_unknown()}"
+        return "unknown", s
+
+    def run_cvc5(fs, tag=""):
+        s = z3.Solver()
+        for f in fs:
+            s.add(f)
+        c, err = _run_cvc5(s.to_smt2(), timeout)
+        answers["cvc5" + tag] = c
+        return c
+
+    def decode(s):
         try:
             m = s.model()
             rec = {}
@@ -81,49 +111,122 @@ def _solve_one(idx):
                 rec[name] = ty.decode(m, val)
             res["model"] = rec
         except Exception as e:       # decoding is best effort; the falsifier is the fall-back
-            res["detail"] = f"model decode failed: {type(e).__name__}: {e}"
-    else:
-        res["detail"] = s.reason_unknown()
-    need_cvc5 = (r == z3.unknown) or (_CFG.get("cross") and r != z3.unknown)
-    if need_cvc5 and _CFG.get("cvc5", True):
-        try:
-            smt2 = s.to_smt2()
-            c, err = _run_cvc5(smt2, timeout)
-            res["cvc5"] = c
-            if r == z3.unknown and c == "unsat":
-                res.update(status="unsat", solver="cvc5-1.0.3")
-            elif r == z3.unknown and c == "sat":
-                res.update(status="sat", solver="cvc5-1.0.3")
-            elif r != z3.unknown and c != "unknown" and c != res["status"]:
-                res["detail"] += f" SOLVER DISAGREEMENT z3={res['status']} cvc5={c}"
-                res["disagree"] = True
-        except Exception as e:
-            res["detail"] += f" cvc5 failed: {e}"
+            res["detail"] += f" model decode failed: {type(e).__name__}: {e}"
+
+    order = ["cvc5", "z3"] if (strings and use_cvc5) else (["z3", "cvc5"] if use_cvc5 else ["z3"])
+    for sv in order:
+        if res["status"] != "unknown" and not cross:
+            break
+        if sv == "z3":
+            r, s = run_z3(forms)
+            if r != "unknown" and res["status"] == "unknown":
+                res.update(status=r, solver="z3-5.1")
+                if r == "sat":
+                    decode(s)
+        else:
+            try:
+                r = run_cvc5(forms)
+            except Exception as e:
+                res["detail"] += f" cvc5 failed: {e}"
+                r = "unknown"
+            if r != "unknown" and res["status"] == "unknown":
+                res.update(status=r, solver="cvc5-1.0.3")
+                if r == "sat" and ob.meta.get("inputs"):
+                    # get a decodable model from z3 if it can find one quickly
+                    r2, s2 = run_z3(forms)
+                    if r2 == "sat":
+                        decode(s2)
+    if "z3" in answers and "cvc5" in answers and {answers["z3"], answers["cvc5"]} == {"sat", "unsat"}:
+        res["detail"] += f" SOLVER DISAGREEMENT {answers}"
+        res["disagree"] = True
     if res["status"] == "unknown" and _CFG.get("instantiate", True):
-        # third / fourth attempt: explicit ground instantiation of the quantified hypotheses (sound for unsat)
         try:
             from . import inst
             qf, n_inst, nested = inst.instantiate(forms)
             if n_inst:
-                s2 = z3.Solver()
-                s2.set("timeout", int(timeout * 1000))
-                for f in qf:
-                    s2.add(f)
-                r2 = s2.check()
-                if r2 == z3.unsat:
-                    res.update(status="unsat", solver=f"z3-5.1 (after {n_inst} ground instances)")
-                elif _CFG.get("cvc5", True):
-                    c2, err = _run_cvc5(s2.to_smt2(), timeout)
-                    if c2 == "unsat":
-                        res.update(status="unsat", solver=f"cvc5-1.0.3 (after {n_inst} ground instances)")
+                for sv in order:
+                    if sv == "z3":
+                        r, _s = run_z3(qf, "+inst")
+                    else:
+                        r = run_cvc5(qf, "+inst")
+                    if r == "unsat":
+                        res.update(status="unsat", solver=f"{'z3-5.1' if sv == 'z3' else 'cvc5-1.0.3'} (after {n_inst} ground instances)")
+                        break
         except Exception as e:
             res["detail"] += f" instantiation failed: {e}"
+    res["answers"] = answers
     res["time"] = round(time.time() - t0, 3)
-    res["strings"] = strings
     return res
 
 
-def solve_all(obligations, timeout=20, workers=None, cross=False, seed=0, cvc5=True, tmp=None):
+class _Part:
+    """one leaf of an obligation's goal after decomposition"""
+
+    def __init__(self, ob, hyps, goal, k):
+        self.name, self.hyps, self.goal, self.meta, self.k = ob.name, hyps, goal, ob.meta, k
+
+    def formula(self):
+        return [h for h, _ in self.hyps] + [z3.Not(self.goal)]
+
+
+_FRESH = [0]
+
+
+def _decompose(goal, hyps, depth=0):
+    """Goal decomposition (sound and complete): A /\ B -> both; forall x. P -> P[c/x] for fresh c;
+    A => B -> prove B under the extra hypothesis A.  Leaves become separate solver queries."""
+    if depth > 12:
+        return [(hyps, goal)]
+    if z3.is_and(goal):
+        out = []
+        for c in goal.children():
+            out.extend(_decompose(c, hyps, depth + 1))
+        return out
+    if z3.is_quantifier(goal) and goal.is_forall():
+        n = goal.num_vars()
+        cs = []
+        for i in range(n):
+            _FRESH[0] += 1
+            cs.append(z3.Const(f"{goal.var_name(i)}!g{_FRESH[0]}", goal.var_sort(i)))
+        body = z3.substitute_vars(goal.body(), *reversed(cs))
+        return _decompose(body, hyps, depth + 1)
+    if z3.is_implies(goal):
+        a, b = goal.children()
+        return _decompose(b, hyps + [(a, None)], depth + 1)
+    return [(hyps, goal)]
+
+
+def solve_all(obligations, timeout=20, workers=None, cross=False, seed=0, cvc5=True, tmp=None, split=True):
+    """Goals that are top-level conjunctions are proved conjunct by conjunct (separate queries)."""
+    if split and obligations:
+        parts, owner = [], []
+        for i, ob in enumerate(obligations):
+            cs = _decompose(ob.goal, list(ob.hyps)) if ob.meta.get("kind") != "canary" else [(list(ob.hyps), ob.goal)]
+            if len(cs) > 40:
+                cs = [(list(ob.hyps), ob.goal)]
+            for k, (hy, c) in enumerate(cs):
+                parts.append(_Part(ob, hy, c, k))
+                owner.append(i)
+        if True:
+            pres = solve_all(parts, timeout, workers, cross, seed, cvc5, tmp, split=False)
+            out = []
+            for i, ob in enumerate(obligations):
+                rs = [r for r, o in zip(pres, owner) if o == i]
+                agg = {"idx": i, "name": ob.name, "time": round(sum(r["time"] for r in rs), 3), "model": None,
+                       "detail": " | ".join(r["detail"] for r in rs if r["detail"]), "parts": len(rs),
+                       "solver": ",".join(sorted({r["solver"] for r in rs if r["solver"]})) or None,
+                       "strings": any(r.get("strings") for r in rs), "disagree": any(r.get("disagree") for r in rs)}
+                if all(r["status"] == "unsat" for r in rs):
+                    agg["status"] = "unsat"
+                elif any(r["status"] == "sat" for r in rs):
+                    agg["status"] = "sat"
+                    agg["model"] = next((r["model"] for r in rs if r["status"] == "sat" and r.get("model")), None)
+                    agg["detail"] += " failing conjuncts: " + ",".join(str(k) for k, r in enumerate(rs) if r["status"] != "unsat")
+                else:
+                    agg["status"] = "unknown"
+                    agg["detail"] += " undecided conjuncts: " + ",".join(str(k) for k, r in enumerate(rs) if r["status"] != "unsat")
+                out.append(agg)
+            return out
     global _OBLIGS, _CFG
     _OBLIGS = obligations
     _CFG = {"timeout": timeout, "cross": cross, "seed": seed, "cvc5": cvc5, "tmp": tmp}
